@@ -12,7 +12,13 @@ Decided:
          cumulative helpers: last_month_hour(m) = sum_{k<=m} 24*monthdays(k), first_month_hour(m) =
          1 + sum_{k<m} 24*monthdays(k mod 12), which gives first(m) = last(m-1) + 1
 
-Not decided: strict monotonicity of the breakpoints (numerical: depends on the durations).
+  R08.0  shape: self.hour / self.load are only ever extended by the month loop's append idiom (no element store, slice
+         store, in-place method or write after the loop)
+  R08.5  order: on every path the difference of consecutive breakpoints is never provably negative or zero; the differences
+         whose sign depends on the durations are exactly the gaps between pulse windows and month boundaries, i.e. the
+         property's own hypothesis (windows overlap neither each other nor the month boundaries)
+
+Not decided: strict monotonicity where it depends on the durations (numerical).
 """
 from __future__ import annotations
 
@@ -50,6 +56,42 @@ def check(prog: Program, tier: str) -> Result:
     res.analysed(fi.qualname)
     res.count("paths", len(ma.paths))
     fmh, lmh = hc.calendar_atoms(ma)
+
+    # ---- R08.0 shape
+    sf = hc.shape_findings(prog, ma)
+    res.ob("R08.0", "self.hour / self.load are only ever extended by the month loop's append idiom", not sf, prog.loc(fi, ma.loop))
+    for key_, where_, qn_, msg_ in sf:
+        res.violation("R08.0", key_, where_, qn_, msg_ + " - the last breakpoint / the month-end breakpoints are no longer those the loop emitted")
+
+    # ---- R08.5 order of the breakpoints inside a month
+    P_ = Rat.atom("PREV_END")
+    seen5 = set()
+    n5 = 0
+    for p in ma.paths:
+        if p.clamped or len(p.hours) < 2 or any(not isinstance(h_, Rat) for h_ in p.hours):
+            continue
+        mapping = {next(iter(fmh.atoms())): P_ + Rat.const(1)}
+        if p.day_rel == "=" and p.ipf is not False:
+            mapping[next(iter(ma.atoms["KCL"].atoms()))] = ma.atoms["KHL"]
+        hs = [h_.subs(mapping) for h_ in p.hours]
+        for k_ in range(1, len(hs)):
+            d_ = hs[k_] - hs[k_ - 1]
+            if lmh.key() in d_.key():
+                continue  # the distance to the month end depends on the month length: hypothesis (window inside the month)
+            sg = p.state.sign_of(d_)
+            key5 = (p.signature(), k_)
+            if key5 in seen5:
+                continue
+            seen5.add(key5)
+            n5 += 1
+            bad = "+" not in sg
+            if bad:
+                res.ob("R08.5", f"breakpoints {k_ - 1} -> {k_} do not go backwards on path [{p.signature()}]", False, hc.path_where(prog, ma, p, 2 * k_ + 1 if 2 * k_ + 1 < len(p.nodes) else len(p.nodes) - 1))
+                res.violation("R08.5", f"order|{p.signature()}|{k_}|{d_.key()[:80]}", hc.path_where(prog, ma, p, len(p.nodes) - 1), fi.qualname,
+                              f"on the path [{p.signature()}] breakpoint {k_} minus breakpoint {k_ - 1} is {d_.key()[:160]}, which is never positive: the time axis goes backwards (or stalls) whatever the durations are")
+    res.ob("R08.5", f"no consecutive breakpoints of a month are provably out of order ({n5} differences examined)", not any(f.rule == "R08.5" for f in res.findings), prog.loc(fi, ma.loop))
+    res.count("breakpoint_differences", n5)
+    res.floor("breakpoint_differences", 10)
 
     # ---- R08.2 closing on every path (including clamped ones)
     seen = set()
@@ -450,6 +492,10 @@ def _check_calendar(prog: Program, res: Result):
 
 
 VARIANTS = [
+    Variant("last breakpoint overwritten after the month loop (seeded C08_c)", "break",
+            [(GL, "        n = self.hour.size\n", "        self.hour[-1] = self.end_month / 12.0 * 8760.0\n        n = self.hour.size\n")], "R08.0"),
+    Variant("same-day peaks sent through the heating-first branch (seeded C08_d)", "break",
+            [(GL, "            elif peak_day_diff > 0:", "            elif peak_day_diff >= 0:")], "R08.5"),
     Variant("one module-level month table, February patched in place for leap years (seeded C08_b)", "break",
             [(GL, """    if leap_year:
         num_days = [31, 31, 29, 31, 30, 31, 30, 31, 31, 30, 31, 30, 31]
